@@ -13,3 +13,7 @@ import Ymq.Props.C19Wied
 #print axioms Ymq.C19Wied.select_crtprimes_spec
 #print axioms Ymq.C19Wied.select_crtprimes_zero_norm
 #print axioms Ymq.C19Wied.detz_of_detp_selected_partial
+#print axioms Ymq.C19Wied.mkMat_valid
+#print axioms Ymq.C19Wied.ker_p256_sound
+#print axioms Ymq.C19Wied.ker_p256_none_iff
+#print axioms Ymq.C19Wied.ker_p256_panics
